@@ -35,6 +35,9 @@ pub enum Arr {
     Periodic,
     /// all occurrences of the first symbol packed at a pseudo-random place, rest shuffled
     Packed,
+    /// shuffled data followed (or, if the flag is set, preceded) by a run holding k/8 of the
+    /// occurrences of the most frequent symbol: padded files, BWT-like tails
+    Padded(bool, u8),
 }
 
 #[derive(Clone, Debug, PartialEq, Eq, Hash, Serialize, Deserialize)]
@@ -227,6 +230,23 @@ impl Recipe {
                     }
                 }
             }
+            Arr::Padded(head, eighths) => {
+                // symbol 0 of `counts` is the most frequent one for every skewed profile
+                let pad = counts[0] * (eighths.clamp(1, 8) as usize) / 8;
+                let mut rest: Vec<u128> = Vec::with_capacity(self.n);
+                rest.extend(std::iter::repeat(sym(0)).take(counts[0] - pad));
+                for j in 1..d {
+                    rest.extend(std::iter::repeat(sym(j)).take(counts[j]));
+                }
+                rng.shuffle(&mut rest);
+                if head {
+                    out.extend(std::iter::repeat(sym(0)).take(pad));
+                    out.extend_from_slice(&rest);
+                } else {
+                    out.extend_from_slice(&rest);
+                    out.extend(std::iter::repeat(sym(0)).take(pad));
+                }
+            }
             Arr::Packed => {
                 let mut rest: Vec<u128> = Vec::with_capacity(self.n);
                 for j in 1..d {
@@ -345,6 +365,7 @@ fn arrangement() -> BoxedStrategy<Arr> {
         2 => (0u8..=12).prop_map(Arr::Runs),
         1 => Just(Arr::Periodic),
         1 => Just(Arr::Packed),
+        2 => (any::<bool>(), 1u8..=8).prop_map(|(h, k)| Arr::Padded(h, k)),
     ]
     .boxed()
 }
